@@ -271,4 +271,22 @@ CHECKS = {
                              "thorough": ["checkpoint:after-last-message", "checkpoint:source-lags-message-offset", "msg:around-32KiB-buffer", "msg:>4MiB", "comp:gzip", "comp:brotli"]},
         "stages": [rapid("wire", "TestProp", 1600, 64000, qs=16, ts=16, qt=600, tt=5400)],
     },
+    "C14": {
+        "title": "An overlay turns the old file into the new file, whatever the write pattern",
+        "level": "exploration",
+        "technique": "rapid property-based testing against a reference overlay replayer, over run-structured (old,new) pairs x write slicings x flush/session breaks",
+        "level_text": ("(old,new) generated as runs of equal/differing bytes with run lengths {0..40, 8KiB-42..8KiB+58, 128KiB+-1, up to 140KiB}, new "
+                       "shorter/longer/empty, on high-entropy AND periodic/constant content (on random data a mis-positioned reader degrades to "
+                       "FRESH and stays right; on periodic data it shows). Writes sliced 1..100 / 1..300KiB / window-sized / bytewise; after each "
+                       "write nothing, Flush, or Flush + a new session resumed from the reported ReadOffset/OverlayOffset with the stale overlay "
+                       "tail kept or cut. Oracles: an independent decoder + reference replay == new; OverlayPatchContext.Patch onto a copy of old + "
+                       "truncate == new; ReadOffset after a flush == bytes consumed; SKIP ops only cover bytes where old == new."),
+        "level_note": "the old-file reader never returns short reads (bytes.Reader / os.File), like the readers the overlay bowl uses.",
+        "rule": ("rapid draws (entropy, runs, cuts, slices, actions). Non-trivial: the overlay contains >=1 SKIP and >=1 FRESH and the run had a "
+                 "flush or a session break. Distinct: SHA-1 of the spec."),
+        "assumptions": ["at most 24 sessions per case (each allocates two 128KiB buffers)"],
+        "required_classes": {"quick": ["op:skip", "op:fresh", "sessions:>1", "flush:some", "entropy:periodic", "new:shorter", "new:longer"],
+                             "thorough": ["op:skip", "op:fresh", "sessions:>1", "flush:some", "entropy:periodic", "entropy:constant", "new:shorter", "new:longer", "new:empty"]},
+        "stages": [rapid("overlay", "TestProp", 6400, 200000, qs=16, ts=16, qt=600, tt=5400)],
+    },
 }
